@@ -73,6 +73,10 @@ first `k` bits are removed IN PLACE. -/
 def delBits? (σ : State) (id k : Nat) : Option State :=
   if (σ.bitBuf id).length < k then none else some (σ.setB id ((σ.bitBuf id).drop k))
 
+/-- `x.append(b)` / `x.fill()` on the PLAIN bit array held in container `id`: IN PLACE (one more bit / zero bits up to a multiple of 8) -/
+def appendBit (σ : State) (id : Nat) (b : Bool) : State := σ.setB id (σ.bitBuf id ++ [b])
+def fillBits (σ : State) (id : Nat) : State := σ.setB id (σ.bitBuf id ++ List.replicate ((8 - (σ.bitBuf id).length % 8) % 8) false)
+
 /-- `for i in range(lo, hi): body` with the heap threaded through; `none` = the body raised -/
 def forFuel : Nat → Nat → State → (Nat → State → Option State) → Option State
   | 0, _, σ, _ => some σ
